@@ -874,7 +874,13 @@ void gen_c17(Plan& p, bool thorough) {
   Case s2 = sign_case(r, param, "c01");
   s2.erase("node");
   s2.set("kmode", "lib");
+  env_faults(s2, r, 100); // helpers that clear or mask buffers are compiled under instance switches too
   p.tasks[0].push_back(s2);
+  {
+    Case s3 = km;
+    s3.set("op", "sign").set("surf", (int64_t)r.below(2)).set("chk", "c01").set("kmode", "model").set("f.heap", r.chance(1, 2) ? "ff" : "a5").set("f.stack", 255);
+    p.tasks[0].push_back(s3);
+  }
   for (int i = 0; i < (thorough ? 10 : 6); i++) {
     Case c = wire_case(r, param, km, "c02");
     c.erase("node");
